@@ -162,10 +162,10 @@ func c20Oracle(info *runInfo, res *verifsim.Result) {
 
 	// (ii) supervision
 	type tk struct {
-		name            string
-		enter, exit     *verifsim.Event
-		ready           *verifsim.Event
-		cancelled       *verifsim.Event
+		name        string
+		enter, exit *verifsim.Event
+		ready       *verifsim.Event
+		cancelled   *verifsim.Event
 	}
 	tasks := map[string]*tk{}
 	var names []string
